@@ -375,6 +375,54 @@ proof fn lemma_rst_plain_rte(ev: Seq<Ev>, i: int, s: RstSt, closing: Seq<u8>)
     }
 }
 
+// ---- witnesses: the antecedents of the clauses below are satisfiable, and the definition gives the expected texts on examples
+pub open spec fn ev_start(n: Seq<u8>) -> Ev { Ev { kind: EvKind::Start, name: n, attrs: Seq::empty(), raw: Seq::empty(), text: Seq::empty(), text_ok: true } }
+pub open spec fn ev_end(n: Seq<u8>) -> Ev { Ev { kind: EvKind::End, name: n, attrs: Seq::empty(), raw: Seq::empty(), text: Seq::empty(), text_ok: true } }
+pub open spec fn ev_text(t: Seq<char>) -> Ev { Ev { kind: EvKind::Text, name: Seq::empty(), attrs: Seq::empty(), raw: Seq::empty(), text: t, text_ok: true } }
+proof fn lemma_local_no_colon(n: Seq<u8>, i: int)
+    requires 0 <= i <= n.len(), forall|k: int| 0 <= k < n.len() ==> n[k] != 0x3au8,
+    ensures colon_at(n, i) == n.len(),
+    decreases n.len() - i,
+{
+    if i < n.len() { lemma_local_no_colon(n, i + 1); }
+}
+proof fn lemma_plain_names()
+    ensures local_of(n_si()) == n_si(), local_of(n_t()) == n_t(), local_of(n_r()) == n_r(), local_of(n_rph()) == n_rph(), local_of(n_sst()) == n_sst(),
+{
+    lemma_local_no_colon(n_si(), 0); lemma_local_no_colon(n_t(), 0); lemma_local_no_colon(n_r(), 0);
+    lemma_local_no_colon(n_rph(), 0); lemma_local_no_colon(n_sst(), 0);
+}
+/// <si><t>ab</t></si>  (events after the start tag)  -->  plain, "ab"
+proof fn witness_rst_plain()
+    ensures ({ let ev = seq![ev_start(n_t()), ev_text(seq!['a', 'b']), ev_end(n_t()), ev_end(n_si())];
+               let it = rst_item(ev, 0, n_si());
+               it.ok && !it.rich && it.text == Some(seq!['a', 'b']) && it.end == 3 && unprefixed(n_si()) && no_cdata(ev, 0, it.end) }),
+{
+    lemma_plain_names(); lemma_names_distinct();
+    let ev = seq![ev_start(n_t()), ev_text(seq!['a', 'b']), ev_end(n_t()), ev_end(n_si())];
+    assert(n_t().len() != n_si().len());
+    reveal_with_fuel(rst_scan, 6);
+    assert(Seq::<char>::empty() + seq!['a', 'b'] =~= seq!['a', 'b']);
+}
+/// <si><r><t>a</t></r><rPh><t>x</t></rPh></si>  -->  rich, "a" (the phonetic run contributes nothing)
+proof fn witness_rst_rich_phonetic()
+    ensures ({ let ev = seq![ev_start(n_r()), ev_start(n_t()), ev_text(seq!['a']), ev_end(n_t()), ev_end(n_r()),
+                             ev_start(n_rph()), ev_start(n_t()), ev_text(seq!['x']), ev_end(n_t()), ev_end(n_rph()), ev_end(n_si())];
+               let it = rst_item(ev, 0, n_si());
+               it.ok && it.rich && it.text == Some(seq!['a']) && it.end == 10 }),
+{
+    lemma_plain_names(); lemma_names_distinct();
+    assert(n_t().len() != n_si().len() && n_r().len() != n_si().len() && n_rph().len() != n_si().len());
+    reveal_with_fuel(rst_scan, 13);
+    assert(Seq::<char>::empty() + seq!['a'] =~= seq!['a']);
+}
+/// <si/>  -->  no text
+proof fn witness_rst_none()
+    ensures ({ let it = rst_item(seq![ev_end(n_si())], 0, n_si()); it.ok && !it.rich && it.text is None && it.end == 0 }),
+{
+    reveal_with_fuel(rst_scan, 2);
+}
+
 //@@ fn src/xlsx/mod.rs read_string props=C19 ret=r
 //@@ sig
     ensures
@@ -637,6 +685,7 @@ proof fn lemma_sst_end(ev: Seq<Ev>, i: int, s: SstSt, strict: bool)
                 good ==> sst_scan(ev, xml.pos() as int, st, true) == tot,
             invariant
                 ev == xml.events(), tot == sst_part(ev, true),
+                part_events(old(self).zip, sst_path()) == Some(ev), s0 == old(self).strings@,
                 good == (tot.ok && si_unprefixed(ev) && no_cdata(ev, 0, tot.end)),
                 b"si"@ == n_si(), b"sst"@ == n_sst(), n_si() != n_sst(),
                 good ==> xml.pos() <= tot.end + 1 && tot.end < ev.len(),
@@ -660,6 +709,7 @@ proof fn lemma_sst_end(ev: Seq<Ev>, i: int, s: SstSt, strict: bool)
             }
 //@@ before /if let Some\(s\) = read_string/
                     let ghost it = rst_item(ev, pos + 1, ev[pos].name);
+                    let ghost sv0 = self.strings@;
                     proof {
                         assert(pos < ev.len() && ev[pos].kind is Start && e.ev() == ev[pos] && e.ev().local() =~= n_si());
                         if good {
@@ -675,6 +725,8 @@ proof fn lemma_sst_end(ev: Seq<Ev>, i: int, s: SstSt, strict: bool)
                         if good {
                             st = SstSt { items: st0.items.push(it.text), ..st0 };
                             assert(texts(st.items) =~= texts(st0.items).push(it.text->Some_0));
+                            assert(self.strings@.len() == sv0.len() + 1);
+                            assert(strs(self.strings@) =~= strs(sv0).push(it.text->Some_0));
                             assert(strs(self.strings@) =~= strs(s0) + texts(st.items));
                         }
                     }
